@@ -16,12 +16,19 @@ Record mstate := {
   m_events : list event;       (* s.events.queue *)
   m_evdropped : nat;           (* s.events.droppedCount *)
   m_links : list link;
-  m_lkdropped : nat
+  m_lkdropped : nat;
+  m_meta : N * N * N           (* spanKind, startTime, endTime (0 = wall clock / not ended) *)
 }.
 
-Definition init (name0 : bytes) : mstate :=
+(** trace.ValidateSpanKind *)
+Definition validate_kind (k : N) : N :=
+  if (k =? 1) || (k =? 2) || (k =? 3) || (k =? 4) || (k =? 5) then k else 1.
+
+(** newRecordingSpan before it applies links and attributes. *)
+Definition init (so : start_opts) (name0 : bytes) : mstate :=
   {| m_ended := false; m_name := name0; m_status := (0, []); m_attrs := []; m_dropped := 0;
-     m_events := []; m_evdropped := 0; m_links := []; m_lkdropped := 0 |}.
+     m_events := []; m_evdropped := 0; m_links := []; m_lkdropped := 0;
+     m_meta := (validate_kind (so_kind so), so_start so, 0) |}.
 
 (** *** truncateAttr *)
 Definition truncate_attr (limit : Z) (a : kv) : kv :=
@@ -104,7 +111,7 @@ Definition add_event (lim : limits) (s : mstate) (name : bytes) (ts : N) (attrs 
   let '(q, d) := eq_add (lim_events lim) (m_events s) (m_evdropped s) e in
   {| m_ended := m_ended s; m_name := m_name s; m_status := m_status s; m_attrs := m_attrs s;
      m_dropped := m_dropped s; m_events := q; m_evdropped := d;
-     m_links := m_links s; m_lkdropped := m_lkdropped s |}.
+     m_links := m_links s; m_lkdropped := m_lkdropped s; m_meta := m_meta s |}.
 
 Definition add_link (lim : limits) (s : mstate) (ctx : N) (ts : bool) (attrs : list kv) : mstate :=
   if (ctx =? 0) && (match attrs with [] => true | _ => false end) && negb ts then s
@@ -114,7 +121,7 @@ Definition add_link (lim : limits) (s : mstate) (ctx : N) (ts : bool) (attrs : l
     let '(q, d) := eq_add (lim_links lim) (m_links s) (m_lkdropped s) l in
     {| m_ended := m_ended s; m_name := m_name s; m_status := m_status s; m_attrs := m_attrs s;
        m_dropped := m_dropped s; m_events := m_events s; m_evdropped := m_evdropped s;
-       m_links := q; m_lkdropped := d |}.
+       m_links := q; m_lkdropped := d; m_meta := m_meta s |}.
 
 (** *** SetStatus *)
 Definition set_status (s : mstate) (code : N) (desc : bytes) : mstate :=
@@ -123,12 +130,13 @@ Definition set_status (s : mstate) (code : N) (desc : bytes) : mstate :=
     {| m_ended := m_ended s; m_name := m_name s;
        m_status := (code, if code =? 1 then desc else []);
        m_attrs := m_attrs s; m_dropped := m_dropped s; m_events := m_events s;
-       m_evdropped := m_evdropped s; m_links := m_links s; m_lkdropped := m_lkdropped s |}.
+       m_evdropped := m_evdropped s; m_links := m_links s; m_lkdropped := m_lkdropped s; m_meta := m_meta s |}.
 
-Definition set_ended (s : mstate) : mstate :=
+Definition set_ended (s : mstate) (ts : N) : mstate :=
   {| m_ended := true; m_name := m_name s; m_status := m_status s; m_attrs := m_attrs s;
      m_dropped := m_dropped s; m_events := m_events s; m_evdropped := m_evdropped s;
-     m_links := m_links s; m_lkdropped := m_lkdropped s |}.
+     m_links := m_links s; m_lkdropped := m_lkdropped s;
+     m_meta := (fst (fst (m_meta s)), snd (fst (m_meta s)), ts) |}.
 
 (** One call on the span; every mutator starts with the isRecording guard. *)
 Definition step (lim : limits) (s : mstate) (o : op) : mstate :=
@@ -138,7 +146,7 @@ Definition step (lim : limits) (s : mstate) (o : op) : mstate :=
            let '(l, d) := set_attributes lim attrs (m_attrs s) (m_dropped s) in
            {| m_ended := m_ended s; m_name := m_name s; m_status := m_status s; m_attrs := l;
               m_dropped := d; m_events := m_events s; m_evdropped := m_evdropped s;
-              m_links := m_links s; m_lkdropped := m_lkdropped s |}
+              m_links := m_links s; m_lkdropped := m_lkdropped s; m_meta := m_meta s |}
        | OAddEvent name ts attrs => add_event lim s name ts attrs
        | ORecordError typ msg ts attrs =>
            add_event lim s (str "exception") ts
@@ -148,12 +156,14 @@ Definition step (lim : limits) (s : mstate) (o : op) : mstate :=
        | OSetName name =>
            {| m_ended := m_ended s; m_name := name; m_status := m_status s; m_attrs := m_attrs s;
               m_dropped := m_dropped s; m_events := m_events s; m_evdropped := m_evdropped s;
-              m_links := m_links s; m_lkdropped := m_lkdropped s |}
-       | OEnd => set_ended s
+              m_links := m_links s; m_lkdropped := m_lkdropped s; m_meta := m_meta s |}
+       | OEnd ts => set_ended s ts
        end.
 
-Definition run_model (lim : limits) (name0 : bytes) (ops : list op) : mstate :=
-  fold_left (step lim) ops (init name0).
+(** newRecordingSpan applies the start links through AddLink and the start
+    attributes through SetAttributes ([start_ops]), then the program runs. *)
+Definition run_model (lim : limits) (so : start_opts) (name0 : bytes) (ops : list op) : mstate :=
+  fold_left (step lim) (start_ops so ++ ops) (init so name0).
 
 (** The span read back through its ReadOnlySpan accessors (Attributes()
     de-duplicates; the Dropped* accessors return the counters). *)
@@ -161,7 +171,8 @@ Definition live (s : mstate) : export :=
   {| x_name := m_name s; x_status := m_status s;
      x_attrs := dedupe (m_attrs s); x_dropped := m_dropped s;
      x_events := m_events s; x_evdropped := m_evdropped s;
-     x_links := m_links s; x_lkdropped := m_lkdropped s |}.
+     x_links := m_links s; x_lkdropped := m_lkdropped s;
+     x_kind := fst (fst (m_meta s)); x_start := snd (fst (m_meta s)); x_end := snd (m_meta s) |}.
 
 (** snapshot(): what End hands to the span processors (attributes are
     de-duplicated only when there are any; the drop counters are copied
@@ -171,7 +182,8 @@ Definition snapshot (s : mstate) : export :=
      x_attrs := match m_attrs s with [] => [] | _ => dedupe (m_attrs s) end;
      x_dropped := m_dropped s;
      x_events := m_events s; x_evdropped := m_evdropped s;
-     x_links := m_links s; x_lkdropped := m_lkdropped s |}.
+     x_links := m_links s; x_lkdropped := m_lkdropped s;
+     x_kind := fst (fst (m_meta s)); x_start := snd (fst (m_meta s)); x_end := snd (m_meta s) |}.
 
 (** snapshot() as it was before fix 543ed08 (F-C04-2 / F-C04-3): the
     dropped-event and dropped-link counters were copied only when the
@@ -184,4 +196,5 @@ Definition snapshot_before_fix (s : mstate) : export :=
      x_events := m_events s;
      x_evdropped := match m_events s with [] => 0%nat | _ => m_evdropped s end;
      x_links := m_links s;
-     x_lkdropped := match m_links s with [] => 0%nat | _ => m_lkdropped s end |}.
+     x_lkdropped := match m_links s with [] => 0%nat | _ => m_lkdropped s end;
+     x_kind := fst (fst (m_meta s)); x_start := snd (fst (m_meta s)); x_end := snd (m_meta s) |}.
